@@ -437,6 +437,8 @@ def int_lax_coercion_loader(data):
         raise ValueLoadError(e_str, data)
     except TypeError:
         raise TypeLoadError(Union[int, float, str], data)
+    except OverflowError as e:
+        raise ValueLoadError(str(e), data)
 
 
 INT_PROVIDER = ScalarProvider(
